@@ -908,19 +908,19 @@ Proof.
   destruct (limit_exact _ _ _ _ _ _ _ _ Hl Hr) as (H1 & H2 & _ & H4 & _). auto.
 Qed.
 
-Theorem too_large_is_413_partial clf bs :
-  consumer_status ProxyStream clf (Some TooLarge) bs = 413.
-Proof. reflexivity. Qed.
+Theorem too_large_is_413_partial k clf bs :
+  k <> Fastcgi -> consumer_status k clf (Some TooLarge) bs = 413.
+Proof. destruct k; [reflexivity | reflexivity | congruence]. Qed.
 
 Theorem too_large_is_413_refuted :
   exists k clf bs, bs = 200 /\ consumer_status k clf (Some TooLarge) bs <> 413.
-Proof. exists ProxyBuffered, true, 200. split; [reflexivity|]. cbn. lia. Qed.
+Proof. exists Fastcgi, true, 200. split; [reflexivity|]. cbn. lia. Qed.
 
 Theorem too_large_status_table k clf bs :
-  consumer_status k clf (Some TooLarge) bs = 413 <-> k = ProxyStream \/ (k = Fastcgi /\ bs = 413).
+  consumer_status k clf (Some TooLarge) bs = 413 <-> k <> Fastcgi \/ bs = 413.
 Proof.
   destruct k, clf; cbn; split; intros H; try lia; try tauto;
-    try (destruct H as [?|[? ?]]; try discriminate; try lia).
+    try (left; discriminate); try (destruct H as [?|?]; [congruence | lia]).
 Qed.
 
 (* ======================================================================================== *)
